@@ -68,6 +68,12 @@ def make_records(seq, container):
         return [A(0)]
     if seq == "three":
         return [A(0), (A if single else B)(1), A(2)]
+    if seq.startswith("big"):
+        # small records, then a value of 64 KiB / 200 kB / 2 MiB (above what a buffering layer in front of a compressor holds), then
+        # small ones again - and the big one first
+        size = int(seq[3:].rstrip("f"))
+        big = rs("c/a", [["string", "s"], ["varint", "n"]], ["S('z', %d)" % size, "9"])
+        return ([big, A(1), A(2)] if seq.endswith("f") else [A(0), A(1), big, (A if single else B)(3), A(4)])
     n = 300 if seq == "many" else 5000
     return [(A if (single or i % 3) else B)(i) for i in range(n)]
 
@@ -537,7 +543,9 @@ def run_interleaved_writers(case):
 
 
 def cases(tier):
-    for codec, container, seq in itertools.product(CODECS, CONTAINERS, SEQS + (["huge"] if tier == "thorough" else [])):
+    for codec, container, seq in itertools.product(CODECS, CONTAINERS, SEQS + ["big65536", "big65536f", "big200000", "big1000f"] + (["huge", "big8192", "big8192f", "big131072", "big2097152", "big2097152f"] if tier == "thorough" else [])):
+        if container == "csvfile" and seq.startswith("big"):
+            continue  # (the CSV reader's own 1 KiB dialect sniffing and 128 KiB cell limit: C17's known finding, not a codec matter)
         if container == "csvfile" and seq == "empty":
             continue  # a CSV file without a header row has no content to detect a dialect from: not a codec matter
         yield {"kind": "cell", "codec": codec, "container": container, "seq": seq}
